@@ -260,17 +260,17 @@ theorem kn_eq_getD (b : Basis K) {j : ℕ} (h : j < b.knots.size) : b.kn j = b.k
     `start ≤ x < end`: `insert_knot` succeeds, the repaired knot vector is again a valid periodic knot
     vector (sorted, ghost knots repeat with the unchanged period over `n+1` functions, same start and
     end), it is `np.insert(knots, μ, x)` away from the `p+k+1` ghost positions, and `C` is `(n+1) × n`. -/
-theorem insertKnot_periodic (b : Basis K) (hv : b.Valid) (k : ℕ) (hk : b.periodic = (k : Int))
-    (hguard : b.order + k ≤ b.numFunctions) (x : K) (hx : b.start ≤ x ∧ x < b.stop) :
+theorem insertKnot_periodic_le (b : Basis K) (hv : b.Valid) (k : ℕ) (hk : b.periodic = (k : Int))
+    (hguard : b.order + k ≤ b.numFunctions) (x : K) (hx : b.start ≤ x ∧ x ≤ b.stop) :
     ∃ b' C, b.insertKnot x = .ok (b', C) ∧ b'.Valid ∧ b'.order = b.order ∧
       b'.periodic = b.periodic ∧ b'.knots.size = b.knots.size + 1 ∧
       b'.numFunctions = b.numFunctions + 1 ∧ b'.start = b.start ∧ b'.stop = b.stop ∧
       (∀ j, b.order + k < j → j < b.numFunctions + 1 →
-        b'.kn j = insertSeq b.kn (b.bisectR x) x j) ∧
+        b'.kn j = insertSeq b.kn (b.insertMu x) x j) ∧
       Shape (b.numFunctions + 1) b.numFunctions C ∧
       (∀ j, j < b.knots.size + 1 →
-        b'.kn j = repSeq (insertSeq b.kn (b.bisectR x) x) (b.bisectR x) b.numFunctions (b.order + k) j) ∧
-      C = matC b.kn x b.numFunctions b.order (b.bisectR x) := by
+        b'.kn j = repSeq (insertSeq b.kn (b.insertMu x) x) (b.insertMu x) b.numFunctions (b.order + k) j) ∧
+      C = matC b.kn x b.numFunctions b.order (b.insertMu x) := by
   have hmono : Monotone b.kn := kn_mono hv.sorted
   have hp := hv.order_pos
   have hsz := hv.size_ge
@@ -282,20 +282,27 @@ theorem insertKnot_periodic (b : Basis K) (hv : b.Valid) (k : ℕ) (hk : b.perio
   set n := b.numFunctions with hndef
   have hsize : b.knots.size = n + b.order + k + 1 := by omega
   obtain ⟨hm1, hm2, hm3⟩ := bisectRight_spec b.kn hmono x b.knots.size
-  set mu := b.bisectR x with hmu
-  have hm1' : mu ≤ b.knots.size := hm1
-  have hm2' : ∀ i, i < mu → b.kn i ≤ x := hm2
-  have hm3' : ∀ i, mu ≤ i → i < b.knots.size → x < b.kn i := hm3
-  have hpm : b.order ≤ mu := by
+  have hm1b : b.bisectR x ≤ b.knots.size := hm1
+  have hm2b : ∀ i, i < b.bisectR x → b.kn i ≤ x := hm2
+  have hm3b : ∀ i, b.bisectR x ≤ i → i < b.knots.size → x < b.kn i := hm3
+  have hpm0 : b.order ≤ b.bisectR x := by
     by_contra hlt
-    have := hm3' (b.order - 1) (by omega) (by omega)
+    have := hm3b (b.order - 1) (by omega) (by omega)
     exact absurd hx.1 (not_le.2 this)
-  have hmu2 : mu ≤ n + k + 1 := by
-    by_contra hlt
-    have h2 : b.kn (b.knots.size - b.order) ≤ x := hm2' _ (by omega)
-    exact absurd hx.2 (not_lt.2 h2)
-  have hxx : b.kn (mu - 1) ≤ x ∧ x ≤ b.kn mu :=
-    ⟨hm2' _ (by omega), le_of_lt (hm3' mu le_rfl (by omega))⟩
+  have hmudef : b.insertMu x = min (b.bisectR x) (b.knots.size - b.order) := by
+    unfold Basis.insertMu; rw [if_pos (by rw [hk]; omega)]
+  set mu := b.insertMu x with hmu
+  have hm1' : mu ≤ b.knots.size := by rw [hmudef]; omega
+  have hpm : b.order ≤ mu := by rw [hmudef]; omega
+  have hmu2 : mu ≤ n + k + 1 := by rw [hmudef]; omega
+  have hxx : b.kn (mu - 1) ≤ x ∧ x ≤ b.kn mu := by
+    by_cases hc : b.bisectR x ≤ b.knots.size - b.order
+    · have e : mu = b.bisectR x := by rw [hmudef]; exact Nat.min_eq_left hc
+      rw [e]
+      exact ⟨hm2b _ (by omega), le_of_lt (hm3b _ le_rfl (by omega))⟩
+    · have e : mu = b.knots.size - b.order := by rw [hmudef]; exact Nat.min_eq_right (by omega)
+      rw [e]
+      exact ⟨hm2b _ (by omega), hx.2⟩
   have hT : ∀ i, i ≤ b.order + k → b.kn (i + n) = b.kn i + (b.stop - b.start) := by
     intro i hi
     exact hv.ghosts (by rw [hk]; omega) i (by omega)
@@ -347,16 +354,16 @@ theorem insertKnot_periodic (b : Basis K) (hv : b.Valid) (k : ℕ) (hk : b.perio
   refine ⟨{ b with knots := repair b knots1 mu }, matC b.kn x n b.order mu, ?_, ?_, rfl, rfl, ?_,
     hnum, hstart, hstop, ?_, (rel_matC _ _ _ _ _ (by omega)).1,
     fun j hj => hkn' j (by rw [hk1size]; omega), rfl⟩
-  · rw [insertKnot_eq]
-    have hw : wrapX b x = .ok x := by
+  · have hw : wrapX b x = .ok x := by
       unfold wrapX
       rw [if_pos (by rw [hk]; omega),
-        if_neg (not_or.2 ⟨not_lt.2 hx.1, not_lt.2 (le_of_lt hx.2)⟩)]
-    rw [hw]
+        if_neg (not_or.2 ⟨not_lt.2 hx.1, not_lt.2 hx.2⟩)]
+    rw [insertKnot_eq_direct b x (not_coverCond_of_guard b hp k hk hguard), hw]
     have hidx : ¬ idxErr b x mu := by
       unfold idxErr
       omega
     simp only []
+    unfold directForm
     rw [← hmu, if_neg (by omega), if_neg (by omega), if_neg hidx]
   · refine ⟨hp, ?_, fun i hi => ?_, by rw [hk]; omega, hv.periodic_le, ?_, fun _ i hi => ?_⟩
     · change 2 * b.order ≤ (repair b knots1 mu).size
@@ -388,6 +395,33 @@ namespace C04
 set_option linter.unusedSectionVars false
 
 variable {K : Type} [Field K] [LinearOrder K] [IsStrictOrderedRing K] [FloorRing K]
+
+/-- `bisect_right` of a value below the end does not pass the end index: the clamp is idle. -/
+theorem insertMu_of_lt_stop (b : Basis K) (hv : b.Valid) (x : K) (hx : x < b.stop) :
+    b.insertMu x = b.bisectR x := by
+  apply insertMu_of_le
+  have hmono : Monotone b.kn := kn_mono hv.sorted
+  obtain ⟨_, hm2, _⟩ := bisectRight_spec b.kn hmono x b.knots.size
+  have hsz := hv.size_ge
+  have hp := hv.order_pos
+  by_contra hlt
+  have h2 : b.kn (b.knots.size - b.order) ≤ x := hm2 _ (by unfold Basis.bisectR at hlt; omega)
+  exact absurd hx (not_lt.2 h2)
+
+/-- `insertKnot_periodic_le` for `x < end`, in terms of `bisect_right` (the form used by C07/C08). -/
+theorem insertKnot_periodic (b : Basis K) (hv : b.Valid) (k : ℕ) (hk : b.periodic = (k : Int))
+    (hguard : b.order + k ≤ b.numFunctions) (x : K) (hx : b.start ≤ x ∧ x < b.stop) :
+    ∃ b' C, b.insertKnot x = .ok (b', C) ∧ b'.Valid ∧ b'.order = b.order ∧
+      b'.periodic = b.periodic ∧ b'.knots.size = b.knots.size + 1 ∧
+      b'.numFunctions = b.numFunctions + 1 ∧ b'.start = b.start ∧ b'.stop = b.stop ∧
+      (∀ j, b.order + k < j → j < b.numFunctions + 1 →
+        b'.kn j = insertSeq b.kn (b.bisectR x) x j) ∧
+      Shape (b.numFunctions + 1) b.numFunctions C ∧
+      (∀ j, j < b.knots.size + 1 →
+        b'.kn j = repSeq (insertSeq b.kn (b.bisectR x) x) (b.bisectR x) b.numFunctions (b.order + k) j) ∧
+      C = matC b.kn x b.numFunctions b.order (b.bisectR x) := by
+  have := insertKnot_periodic_le b hv k hk hguard x ⟨hx.1, le_of_lt hx.2⟩
+  rwa [insertMu_of_lt_stop b hv x hx.2] at this
 
 /-- Python's `x % y` for `y > 0` lies in `[0, y)`. -/
 theorem pmod_mem (x y : K) (hy : 0 < y) : 0 ≤ pmod x y ∧ pmod x y < y := by
@@ -431,7 +465,8 @@ theorem insertKnot_wrap (b : Basis K) (hper : 0 ≤ b.periodic) (hlt : b.start <
     have : ¬ (wrapVal b x0 < b.start ∨ wrapVal b x0 > b.stop) :=
       not_or.2 ⟨not_lt.2 h1, not_lt.2 h2⟩
     unfold wrapX; rw [if_pos hper, if_neg this]
-  rw [insertKnot_eq b x0, insertKnot_eq b (wrapVal b x0), e1, e2]
+  unfold Basis.insertKnot
+  rw [← wrapX_eq, ← wrapX_eq, e1, e2]
 
 end C04
 end Splipy
